@@ -296,14 +296,17 @@ def apply_step(rng, spec, root, notpassed):
                     if api == "update":
                         holder[new_name] = pspec
                         live.properties.update({new_name: prop})
-                        # dict.update bypasses __setitem__: the documented way to bind is assignment, so
-                        # bind explicitly as the setter would
-                        prop.bind(name=new_name, parent=live)
+                        # dict.update bypasses __setitem__; half of the time the caller binds the property
+                        # as the setter would, half of the time the property stays as constructed (every
+                        # validation binds the properties it finds, so both must behave like a fresh element)
+                        if rng.random() < 0.5:
+                            prop.bind(name=new_name, parent=live)
                     else:
                         if new_name not in holder:
                             holder[new_name] = pspec
                             live.properties.setdefault(new_name, prop)
-                            prop.bind(name=new_name, parent=live)
+                            if rng.random() < 0.5:
+                                prop.bind(name=new_name, parent=live)
             elif step == "prop_rekey":
                 # the same Property object moved to another attribute name: it keeps the JSON name it had
                 new_name = rng.choice([n for n in gen_dsl.PY_NAMES + ["moved", "moved2"] if n not in holder] or ["moved3"])
